@@ -1,7 +1,9 @@
 package main
 
 import (
+	"crypto/sha256"
 	"fmt"
+	"math/big"
 	"reflect"
 	"strings"
 	"sync/atomic"
@@ -155,6 +157,9 @@ func c08() int {
 
 	// compilation cache: every sequence <= 4 over every triple of a script pool x cache sizes 1..3
 	cacheRuns := c08Cache(rep) + nearDuplicateCache(rep, "")
+	if rep.Thorough() {
+		cacheRuns += c08KeyFamily(rep) // (quick tier: run by C03)
+	}
 	shareRuns := c08Sharing(rep)
 
 	cov := st.coverage(sp, nsRule+"; plus odd programs, ill-typed single-slot variants, cache sequences and phase interleavings of two machines on one cached program")
@@ -257,6 +262,20 @@ func c08Cache(rep *evid.Reporter) int {
 						if o := obsOf(res); o != fresh[t[k]] {
 							rep.Violation("cache", fmt.Sprintf("script behaves differently through the compilation cache (size %d, sequence %v of triple %v)", size, seq, t), nsReplay{Engine: "nsgen", Text: s.text, Input: s.in, Observed: o, Expected: fresh[t[k]]})
 						}
+					}
+				}
+				if len(seq) > 1 {
+					// a request holds the program it was given while later compilations go through the cache (and evict it):
+					// run afterwards, the held program still is the first script's
+					comp := command.NewCompiler(size)
+					first := pool[t[seq[0]]]
+					held := nsrun.Compile(comp.Compile, first.text)
+					for _, k := range seq[1:] {
+						_ = nsrun.Compile(comp.Compile, pool[t[k]].text)
+					}
+					atomic.AddInt64(&runs, 1)
+					if o := obsOf(held.Exec(first.in)); o != fresh[t[seq[0]]] {
+						rep.Violation("cache-held-program", fmt.Sprintf("a program obtained from the cache behaves differently once later compilations went through it (size %d, sequence %v of triple %v)", size, seq, t), nsReplay{Engine: "nsgen", Text: first.text, Input: first.in, Observed: o, Expected: fresh[t[seq[0]]]})
 					}
 				}
 				if len(seq) == 4 {
@@ -386,4 +405,31 @@ func c08Noise(rep *evid.Reporter, sp *nsgen.Space) int64 {
 		}
 	})
 	return n
+}
+
+// c08KeyFamily: K script texts that differ in one number go through ONE compilation cache large enough to keep them all; each
+// must get its own program (run: it posts its own amount). A cache key narrower than the text (a short hash, a prefix, a
+// normalised form) hands some text the program of another one; with K = 3e5 a 32-bit key collides about ten times.
+func c08KeyFamily(rep *evid.Reporter) int {
+	k := 300000
+	if rep.Thorough() {
+		k = 600000
+	}
+	comp := command.NewCompiler(k + 16)
+	var bad int64
+	evid.ParallelFor(k, workers(), func(w, i int) {
+		n := i + 1
+		// (the texts also differ in a comment whose bytes are spread evenly - a digest of n - so that structured hashes,
+		// which collide rarely on texts that differ in a few digits only, meet their birthday bound)
+		tag := sha256.Sum256([]byte(fmt.Sprint(n)))
+		text := fmt.Sprintf("// %x\nsend [X %d] (\n  source = @world\n  destination = @a\n)\n", tag[:9], n)
+		res := nsrun.Compile(comp.Compile, text).Exec(&nsgen.Input{})
+		if res.Class != nsgen.ClsOK || len(res.Postings) != 1 || res.Postings[0].Amt.Cmp(big.NewInt(int64(n))) != 0 {
+			if atomic.AddInt64(&bad, 1) <= 3 {
+				rep.Violation("cache-key", fmt.Sprintf("through a cache holding the %d texts of the family, the text sending %d got a program that yields %s %v", k, n, res.Class, res.Postings),
+					nsReplay{Engine: "nsgen", Text: text, Input: &nsgen.Input{}, Observed: fmt.Sprint(res.Postings), Expected: fmt.Sprintf("[world->a X %d]", n)})
+			}
+		}
+	})
+	return k
 }
